@@ -27,7 +27,7 @@ TRUSTED = [
     "Lean 4.33 kernel; axioms propext, Classical.choice, Quot.sound",
     "exact Gram model tied to the optimizers by C03–C06's replay; here the real code is compared with itself on transformed inputs",
     "rounding: Pythagorean rotations are not exact in floats (0.6, 0.8); pairs are judged only where every exact choice "
-    "of the base run is unique by more than 1e-9·scale",
+    "of the base run is unique by more than the step budget (1e-12·scale·conditioning)",
 ]
 ASSUMPTIONS = ["uniqueness of greedy choices is decided by the exact model on the base input"]
 
